@@ -135,12 +135,34 @@ def verdict(algo, oracle_keys, all_res, any_res):
     return None
 
 
+def run_plain_sequence(algo, O, S, leafmap, costs, policies):
+    """the policies in turn on ONE input object -> list of (error, [(key, cost)])"""
+    inp, onode, snode = A.build_input(O, S, leafmap, costs)
+    outs = []
+    for policy in policies:
+        try:
+            res = list(L.PLAIN[algo](inp, A.POLICY[policy]))
+            outs.append((None, [(tuple(sorted(A.mapping_of(r, onode, snode).items(), key=str)), A.impl_cost(r.cost())) for r in res]))
+        except Exception as exc:
+            outs.append((f"{algo}/{policy} raised {type(exc).__name__}: {exc}\n{traceback.format_exc(limit=6)}", []))
+    return outs
+
+
 def check_plain(algo, O, S, leafmap, costs, oracle_keys=None):
     if oracle_keys is None:
         best, sols, _ = dtl.brute(O, S, leafmap, costs[:4])
         oracle_keys = {tuple(sorted(m.items())) for m in sols}
-    return verdict(algo, oracle_keys, run_plain(algo, O, S, leafmap, costs, "ALL"),
-                   run_plain(algo, O, S, leafmap, costs, "ANY")), len(oracle_keys)
+    bad = verdict(algo, oracle_keys, run_plain(algo, O, S, leafmap, costs, "ALL"), run_plain(algo, O, S, leafmap, costs, "ANY"))
+    if bad is None:
+        # the same policies again, this time one after the other on a single input object (ALL, ANY, ALL, ANY): a policy
+        # must not inherit anything from the call before it
+        seq = run_plain_sequence(algo, O, S, leafmap, costs, ("ALL", "ANY", "ALL", "ANY"))
+        for i in (0, 2):
+            bad = verdict(algo, oracle_keys, seq[i], seq[i + 1])
+            if bad:
+                bad = ("sequence_" + bad[0], f"calls #{i + 1}/#{i + 2} of ALL, ANY, ALL, ANY on one input object: " + bad[1])
+                break
+    return bad, len(oracle_keys)
 
 
 def check_lab(algo, O, S, leafmap, leafsyn, costs):
